@@ -23,12 +23,14 @@ U3 = ("u3_interpretation", {})
 U4 = ("u4_cache_parse", {})
 U7 = ("u7_metadata", {})
 
-BUILDERS_ASSUMED = ("builders: the mapper builder ProguardMapper::create_proguard_mapper is verified as a whole (unit u13: loop plumbing around the arm regions of u6, "
-                    "postcondition abs(ret.classes) == built(ok_records(mapping), flag), the fold of one abstract step per record with one record of look-ahead, then the flush); "
-                    "of ProguardCache::write the collection loop is verified as a whole only for the counter invariant wf_cip (unit u14) -- that the collected classes are the "
-                    "fold of the per-arm steps is proved per arm (u6_writer_step), the composition over the loop is ASSUMED for the writer; in both, "
-                    "`mapping.iter().filter_map(Result::ok).peekable()` is behind a shim (ghost: ok_records(mapping), the Ok items of the stream of unit u7), and the "
-                    "HashMap/BTreeMap entry API, HashSet::insert and Peekable::{next,peek} sit behind assumed shims")
+BUILDERS_ASSUMED = ("builders: both are verified as wholes -- the loop plumbing around the arm regions of u6, which are called in place (R11). "
+                    "ProguardMapper::create_proguard_mapper (u13): abs(ret.classes) == built(ok_records(mapping), flag), the fold of one abstract step per record with one "
+                    "record of look-ahead, then the flush. Collection loop of ProguardCache::write (u14): abs(classes) == flush(w_run(tables, ok_records(mapping))), the same fold "
+                    "with member records expressed through the offsets the string table assigned (interning order left open: ghost sequence of tables, each a growth of the "
+                    "previous one containing the record's strings), and wf_cip for every class handed to the tail. ASSUMED in both: "
+                    "`mapping.iter().filter_map(Result::ok).peekable()` behind a shim (ghost: ok_records(mapping), the Ok items of the stream of unit u7), "
+                    "HashMap/BTreeMap entry API, HashSet::insert, Peekable::{next,peek}, watto::StringTable::insert (offsets are stable, the inserted string is present); "
+                    "NOT proved: that the two abstract folds denote the same retrace answers (the refinement between `built` and `w_run` is by inspection of two parallel definitions)")
 
 PROPS = {
     "C01": {
